@@ -15,6 +15,16 @@ CHECKS = {
          "Generated programs inside the order-insensitive fragment are executed in both modes on the same trees and globals; strict Ok must imply lazy Ok with an isomorphic graph, a strict failure with an order-independent cause must imply a lazy failure, and neither may panic. Exploration is the right level: the two interpreters duplicate their logic, and a differential over generated programs reaches the unsampled interactions; it cannot prove equivalence.",
          "Trusted: the generator's enforcement of the fragment (harness/src/gen.rs), graph isomorphism check (budgeted; exhausted budget counts as inconclusive), tree-sitter, proptest.",
          "DESIGN.md §5 C02"),
+ "C10": ("exploration",
+         "reference-model property testing of scan: generated arm lists x subjects, spec-style matching oracle, both interpreters",
+         "Generated arm lists (regex language with classes, alternation, optional groups, anchors, multi-byte literals, occasional assertions) and subjects are run through a program whose arm blocks record arm number and every $k in a chain of nodes; strict and lazy results are compared with the reference interpreter's spec-style scan; nullable regexes must be rejected at load; a poll-bound breach is reported as non-termination. Exploration is the right level: the matching order is defined for all strings and arm lists.",
+         "Trusted: regex crate (matching itself), the scan model in harness/src/interp.rs. With \\b/^ arms the restart context is unspecified: per-arm search on the suffix is used and ambiguous empty matches are counted inconclusive.",
+         "DESIGN.md §5 C10"),
+ "C11": ("fault_enumeration",
+         "exhaustive fault enumeration: cancel at every poll index k of each generated (program, tree, mode) run",
+         "For each generated program/tree/mode the uncancelled run is counted (N polls, equal to the NoCancellation result, at least the reference interpreter's statement + attribute + scan-iteration (+ match) count), then EVERY k in 1..N is run with a flag failing from poll k: the result must be the Cancelled error itself, exactly k polls, no later evaluation (a registered tick function observes that). The k dimension is enumerated completely per pair, so fault_enumeration is the right level; the set of pairs is sampled.",
+         "Trusted: harness CancellationFlag / Function implementations, the reference interpreter's trace for the lower bound. Pairs above 400 (quick) / 2000 (thorough) polls are skipped and counted.",
+         "DESIGN.md §5 C11"),
  "C13": ("exploration",
          "reference-model property testing of the stdlib (generated argument tuples vs an independent model of the documented contracts)",
          "Every call Functions::stdlib().call(name, args) over generated argument tuples (every Value variant, boundary integers, brace / regex / non-ASCII strings, every kind of syntax node incl. root, anonymous and ERROR nodes) is compared with a model written from src/reference/functions.rs: same value, or an error exactly where the contract is broken, never a panic. Exploration is the right level: contracts are stated per function over all values, the functions are small and pure, and a model differential at ~600k calls per quick run reaches the boundary classes.",
@@ -30,6 +40,11 @@ CHECKS = {
          "Sources with 0-6 injected syntax faults are parsed; first/all/into_first/into_all must report exactly the outermost ERROR and MISSING nodes in document order (the owning variants after being moved to another thread) and both Display forms must return and cite line and column. Exploration is the right level: trees are an unbounded input space and the oracle is a ten-line recursive walk.",
          "Trusted: tree-sitter's Node API (is_error, is_missing, child). Thread moves exercise Send only in the schedules the OS produces.",
          "DESIGN.md §5 C18"),
+ "C16": ("exploration",
+         "exhaustive enumeration of the declaration x supply x mode product and of the static rules, plus reference-model testing of generated programs",
+         "Every declaration (4 quantifiers x default or not) x 13 supply patterns x 2 modes, for one global and for all pairs of two globals (21,840 runs), is executed and checked against the contract (missing-global / list errors, value seen at every block depth and stanza, caller's inner and outer Variables unchanged); every static rule x every declaration is checked at load (or run time for shorthand variables); generated programs that read globals at every depth are compared with the reference interpreter in both modes. The finite parts are exhaustive on every run; the generated part is exploration.",
+         "Trusted: the contract model in props/c16.rs and the reference interpreter. A `*`/`+` global that is absent but defaulted evaluates to the default string (list requirement applies to supplied values).",
+         "DESIGN.md §5 C16"),
  "C17": ("exploration",
          "stateful model-based property testing (proptest-driven op sequences vs BTreeMap models)",
          "Generated operation histories (<=200 ops, biased to spill the 8-slot inline edge vector, repeat sinks and conflict attributes) are run against the real containers and a BTreeMap model; every return value and periodic full scans are compared. Exploration is the right level: the contract is over all histories of a small pure data structure, where a model differential finds ordering/spill/overwrite slips quickly; it does not prove absence.",
